@@ -494,16 +494,6 @@ class Interpreter(BaseInterpreter[TContext, TEvent]):
                     self._processing = True
                     depth_before = self._raise_depth
                     await self._process_event_and_transient_transitions(event)
-                    # ✅ The chain ends once nothing this machine raised at
-                    #    itself is left in the queue. (A macrostep that merely
-                    #    raised nothing does not end it: other members of a
-                    #    branching chain may still be queued, and resetting
-                    #    the count there let such a chain run forever.)
-                    if (
-                        self._raise_depth == depth_before
-                        and not self._self_raised
-                    ):
-                        self._raise_depth = 0
                 except asyncio.CancelledError:
                     raise
                 except Exception as exc:
@@ -517,6 +507,20 @@ class Interpreter(BaseInterpreter[TContext, TEvent]):
                     )
                 finally:
                     self._processing = False
+
+                # ✅ The chain ends once nothing this machine raised at
+                #    itself is left in the queue. (A macrostep that merely
+                #    raised nothing does not end it: other members of a
+                #    branching chain may still be queued, and resetting
+                #    the count there let such a chain run forever.) This
+                #    applies to a macrostep that FAILED as well: skipping
+                #    the reset there leaked the count into later, unrelated
+                #    chains, which were then cut short.
+                if (
+                    self._raise_depth == depth_before
+                    and not self._self_raised
+                ):
+                    self._raise_depth = 0
 
                 self._event_queue.task_done()
 
